@@ -18,8 +18,10 @@ BUDGET = {"quick": 420, "thorough": 3 * 3600}
 RULE = (
     "a case is one simulated run of the real CLI in which no input file may be touched: (a) any run without --fix (batches, jobs, "
     "formats, -ap, --json/--junit, configuration, stdin, random SimPool schedule, optional read-side I/O errors), (b) --fix with nothing "
-    "fixable by construction (global fixable:false / disable:true / warning severity), (c) --fix on a file that the same tree has fixed "
-    "until -ap reports zero violations. Non-trivial = at least one input file was read and the run ended normally; for (b)/(c) the "
+    "fixable by construction (global fixable:false / disable:true / warning severity, empty --fix_only, -fp 0, --fix_only naming only unfixable rules), "
+    "(c) --fix on a file that the same tree has fixed until -ap reports zero violations, or on a corpus file under a configuration that disables "
+    "exactly the rules reporting on it, (d) clean files protected inside a batch in which other files are fixed, (r) class (a) on inputs that "
+    "stress the read path, with the read monitor (emit(parse(x)) == x) as an additional verdict. Non-trivial = at least one input file was read and the run ended normally; for (b)/(c) the "
     "--fix path was entered for at least one accepted file. Distinct = distinct (class, multiset of file digests, option set, schedule hash)."
 )
 ASSUMPTIONS = [
